@@ -1,15 +1,24 @@
 #!/usr/bin/env python3
-"""Compare a `cargo test --workspace --no-fail-fast --offline` log with BASELINE.json stable_pass."""
+"""Compare a `cargo test --workspace --no-fail-fast --offline` log with BASELINE.json stable_pass.
+A stable test counts as passing if it was started ("test NAME ...") and is not reported FAILED
+(log lines of concurrently running tests can be interleaved between the name and the verdict)."""
 import json,re,sys
 log=open(sys.argv[1]).read()
-ok=set(re.findall(r"^test (\S+)(?: - should panic)? \.\.\. ok$", log, re.M))
+started=set(re.findall(r"^test (\S+)(?: - should panic)? \.\.\. ", log, re.M))
+failed=set(re.findall(r"^test (\S+)(?: - should panic)? \.\.\. FAILED", log, re.M))
+failed|=set(re.findall(r"^    (\S+::\S+)$", log, re.M))   # names listed under "failures:"
 base=json.load(open('/root/.vp/BASELINE.json'))['stable_pass']
-missing=[]
+missing=[];bad=[]
+def variants(b):
+    s=b.split('::',1)[1] if '::' in b else b
+    v=[b,s]
+    if s.startswith('tests::'): v.append(s.split('::',1)[1])
+    return v
 for b in base:
-    suffix=b.split('::',1)[1] if '::' in b else b
-    if suffix.startswith('tests::misc') or suffix.startswith('tests::'): suffix=suffix.split('::',1)[1]
-    if not (suffix in ok or b in ok or any(o.endswith(suffix) for o in ok)):
-        missing.append(b)
-print("baseline stable_pass:",len(base),"ok in log:",len(ok),"missing:",len(missing))
-for m in missing[:20]: print("  MISSING",m)
-sys.exit(1 if missing else 0)
+    vs=variants(b)
+    if any(x in failed for x in vs): bad.append(b); continue
+    if not any(x in started for x in vs): missing.append(b)
+print("baseline stable_pass:",len(base),"started:",len(started),"failed-among-stable:",len(bad),"not-run:",len(missing))
+for m in bad[:20]: print("  FAILED",m)
+for m in missing[:20]: print("  NOT RUN",m)
+sys.exit(1 if (missing or bad) else 0)
